@@ -1281,12 +1281,19 @@ def like_case(draw, tier='quick'):
             lid, 0, None, None), like={'base': ref['id'], 'but': {}})]}
         )['cells'][-1]
         if eff.get('fill') is None:
-            how = d(st.sampled_from(['mat+rho', 'mat+rho', 'rho', 'rho',
-                                     'none', 'void']))
+            hows = ['mat+rho', 'mat+rho', 'rho', 'rho', 'none', 'void']
+            ref_but = (ref.get('like') or {}).get('but') or {}
+            if 'rho' in ref_but and eff['mat'] != 0:
+                # a chain: the copied cell overrides RHO itself, the copy of
+                # the copy is void whatever density the chain carries
+                hows += ['void', 'void', 'void']
+            how = d(st.sampled_from(hows))
             if how == 'void' and eff['mat'] != 0:
                 # MAT=0: the copy of a cell with a material is void
                 but['mat'] = 0
                 b.labels.add('like:mat=0')
+                if 'rho' in ref_but:
+                    b.labels.add('like:mat=0-after-rho-in-chain')
             if how == 'mat+rho' or (how == 'rho' and eff['mat'] == 0):
                 m, rho = b.material()
                 if m != 0:
